@@ -420,5 +420,5 @@ func c19JudgeIndex(w *fw.W, vcase any, indexFile string, byID map[string]*c19Con
 func c19Finish(d *fw.D) {
 	// exactly-once is decided per round inside the workers (each round owns its files); the driver only
 	// reports the size of the enumerated tables so that table_cells can be compared with it.
-	d.Count("table_cells_planned", c19Product(c19DecisionDims())+c19Product(c19ContentDims())+c19Product(c19PartsDims())+c19Product(c19LateDims())+c19Product(c19MultiDims()))
+	d.Count("table_cells_planned", c19Product(c19DecisionDims())+c19Product(c19ContentDims())+c19Product(c19PartsDims())+c19Product(c19LateDims())+c19Product(c19MultiDims())+c19Product(c19NoPatDims()))
 }
